@@ -586,6 +586,13 @@ func (g *Gen) boolAtom(d int) *GExpr {
 			}
 		case 7:
 			if g.on("between") {
+				if !g.safeDiv && r.Chance(0.25) {
+					// row-dependent bounds: lower > upper on some rows fails at run time there, in both modes
+					if r.Bool() {
+						return &GExpr{Kind: "between", T: TB, Args: []*GExpr{g.S(d-1, "op"), g.S(d-1, "op"), g.S(d-1, "op")}}
+					}
+					return &GExpr{Kind: "between", T: TB, Args: []*GExpr{g.N(d-1, "op"), g.N(d-1, "op"), g.N(d-1, "op")}}
+				}
 				if r.Bool() {
 					lo, hi := pick(r, genStrLits), pick(r, genStrLits)
 					if lo > hi {
@@ -740,7 +747,38 @@ func (g *Gen) Select(wantAlias bool) *GSelect {
 	nf := r.Range(1, 4)
 	g.aliases = nil
 	names := 0
-	newName := func() string { names++; return fmt.Sprintf("f%d", names-1) }
+	lastStyle := 0
+	twinned := false
+	collidePool := []string{"c", "ca", "a", "ab", "b", "bc", "x", "xa", "k", "k0"}
+	if g.style == StoreCollide {
+		shuffle(r, collidePool)
+	}
+	newName := func() string {
+		if g.style == StoreCollide && names < len(collidePool) {
+			// names that are prefixes of one another, over keys that continue them
+			names++
+			return collidePool[names-1]
+		}
+		// style 0: f<n>; style 1: a back-quoted name, which keeps its case: `F<n>`.
+		// Now and then the next alias re-uses the number in the other style, so
+		// two names differ only in case.
+		style := 0
+		if r.Chance(0.15) {
+			style = 1
+		}
+		if names > 0 && style != lastStyle && !twinned && r.Chance(0.5) {
+			names--
+			twinned = true
+		} else {
+			twinned = false
+		}
+		lastStyle = style
+		names++
+		if style == 1 {
+			return fmt.Sprintf("`F%d`", names-1)
+		}
+		return fmt.Sprintf("f%d", names-1)
+	}
 
 	if !wantAlias && !aggregate && r.Chance(0.15) {
 		q.Star = true
